@@ -503,6 +503,35 @@ def fixtures_with_structure_preserving_edits(H, path):
             except Exception as e:  # noqa
                 same, err = False, repr(e)
             H.check("odd_unknown_id_is_skipped", same, witness={"file": os.path.basename(path), "id": repr(odd), "position": pos, "error": err})
+    # an id that IS documented, but for another level of the file, is unknown where it stands: a module-level
+    # id among the project header chunks, a project-level id inside a module section - skipped there, and
+    # the documented chunk of that name still works where it belongs
+    if path.endswith(".sunvox"):
+        ids = [bytes(c[0]) for c in chunks]
+        first_mod = ids.index(b"SFFF") if b"SFFF" in ids else len(ids)
+        inside = next((i for i in range(first_mod + 1, len(ids)) if ids[i] == b"SNAM"), None)
+        probes = [(b"SXXX", 1), (b"SCOL", max(1, first_mod - 1)), (b"CVAL", 2)]
+        if inside is not None:
+            probes += [(b"GVOL", inside + 1), (b"PATN", inside + 1)]
+        for cid, pos in probes:
+            edited = _stream(chunks[:pos] + [(cid, b"\x2a\x00\x00\x00")] + chunks[pos:])
+            try:
+                same = _norm(_load(edited)) == base
+                err = None
+            except Exception as e:  # noqa
+                same, err = False, repr(e)
+            H.check("id_of_another_level_is_skipped", same, witness={"file": os.path.basename(path), "id": repr(cid), "position": pos, "error": err})
+        # loading is not history dependent: the unedited file still decodes to the same object afterwards
+        H.check("later_load_of_the_pristine_file_is_unaffected", _norm(_load(data)) == base, witness={"file": os.path.basename(path)})
+    # [doc: "Waveform chunk"] CHFR is optional, default 44100: dropping every CHFR that says 44100 changes nothing
+    cut = [c for c in chunks if not (bytes(c[0]) == b"CHFR" and bytes(c[1]) == b"\x44\xac\x00\x00")]
+    if len(cut) != len(chunks):
+        try:
+            same = _norm(_load(_stream(cut))) == base
+            err = None
+        except Exception as e:  # noqa
+            same, err = False, repr(e)
+        H.check("absent_CHFR_leaves_documented_default_44100", same, witness={"file": os.path.basename(path), "error": err})
     if path.endswith(".sunsynth"):
         cv = [i for i, c in enumerate(chunks) if bytes(c[0]) == b"CVAL"]
         full = _load(data).module
